@@ -547,3 +547,69 @@ func tailAt(s string, i int) string {
 	lo, hi := max(0, i-6), min(len(s), i+14)
 	return s[lo:hi]
 }
+
+// ---------------------------------------------------------------------------------------------
+// The escaper under every REGISTERED top-level property (discovered from the tree under test, like
+// c10/wall-clock-through-the-lifecycle): a property may switch the escaper into another mode (escape
+// non-ASCII, ...); whatever mode it is in, the output is a valid JSON string literal that decodes to the
+// input. For every property x {"true", "1", "false"} the setter accepts (through Refresh, as a user
+// would set it): every Unicode scalar value, every 1- and 2-byte string, the 14 boundary bytes to length 3.
+// ---------------------------------------------------------------------------------------------
+
+type c09PropCase struct {
+	Prop  string `json:"property"`
+	Value string `json:"value"`
+}
+
+func init() {
+	definePart("C09", "c09/under-every-registered-property", "qt", "every registered top-level property x {true, 1, false}: every Unicode scalar value, every 1- and 2-byte string, 14 boundary bytes to length 3",
+		func(tier string, yield func(c09PropCase)) {
+			for _, p := range log.VerifPropertyNames() {
+				for _, v := range []string{"true", "1", "false"} {
+					yield(c09PropCase{p, v})
+				}
+			}
+		},
+		func(c c09PropCase) (string, []Violation, int) {
+			confReset()
+			conf := map[string]string{"appender.r0.type": "Rec", "logger.root.type": "Logger", "logger.root.appenderRef.ref": "r0", c.Prop: c.Value}
+			if err, pn := safeRefresh(conf); err != nil || pn != nil {
+				safeCall(log.Destroy)
+				return "value-rejected", nil, 1 // the setter does not take this value
+			}
+			defer func() { safeCall(log.Destroy); log.VerifReset() }()
+			var buf bytes.Buffer
+			var v []Violation
+			n := 0
+			check := func(s string) {
+				n++
+				if len(v) < 5 {
+					if _, viol := c09Check(&buf, s); viol != nil {
+						viol.Key = fmt.Sprintf("%s=%s %s", c.Prop, c.Value, viol.Key)
+						viol.Detail = fmt.Sprintf("with the property %s=%s: %s", c.Prop, c.Value, viol.Detail)
+						v = append(v, *viol)
+					}
+				}
+			}
+			for r := rune(0); r <= 0x10FFFF; r++ {
+				if r >= 0xD800 && r <= 0xDFFF {
+					continue
+				}
+				check(string(r))
+			}
+			for a := 0; a < 256; a++ {
+				check(string([]byte{byte(a)}))
+				for b := 0; b < 256; b++ {
+					check(string([]byte{byte(a), byte(b)}))
+				}
+			}
+			for _, a := range c09Boundary {
+				for _, b := range c09Boundary {
+					for _, d := range c09Boundary {
+						check(string([]byte{a, b, d}))
+					}
+				}
+			}
+			return fmt.Sprint(n), v, n
+		})
+}
